@@ -798,28 +798,6 @@ func (w *Worktree) removeEntries(idx *index.Index, entries []*index.Entry) error
 	return nil
 }
 
-func (w *Worktree) removeEmptyDirectory(path string) error {
-	files, err := w.filesystem.ReadDir(path)
-	if err != nil {
-		return err
-	}
-
-	if len(files) != 0 {
-		return nil
-	}
-
-	return w.filesystem.Remove(path)
-}
-
-func (w *Worktree) doRemoveFile(idx *index.Index, path string) (plumbing.Hash, error) {
-	hash, err := w.deleteFromIndex(idx, path)
-	if err != nil {
-		return plumbing.ZeroHash, err
-	}
-
-	return hash, w.deleteFromFilesystem(path)
-}
-
 func (w *Worktree) deleteFromIndex(idx *index.Index, path string) (plumbing.Hash, error) {
 	e, err := idx.Remove(path)
 	if err != nil {
@@ -827,15 +805,6 @@ func (w *Worktree) deleteFromIndex(idx *index.Index, path string) (plumbing.Hash
 	}
 
 	return e.Hash, nil
-}
-
-func (w *Worktree) deleteFromFilesystem(path string) error {
-	err := w.filesystem.Remove(path)
-	if os.IsNotExist(err) {
-		return nil
-	}
-
-	return err
 }
 
 // RemoveGlob removes all paths, matching pattern, from the index. If pattern
@@ -852,22 +821,21 @@ func (w *Worktree) RemoveGlob(pattern string) error {
 		return err
 	}
 
+	// The index has no entry for a directory, so a pattern that is the name of
+	// one matches nothing above: it stands for what is tracked below it.
+	matched := make(map[*index.Entry]struct{}, len(entries))
 	for _, e := range entries {
-		file := filepath.FromSlash(e.Name)
-		if _, err := w.filesystem.Lstat(file); err != nil && !os.IsNotExist(err) {
-			return err
+		matched[e] = struct{}{}
+	}
+	dir := strings.TrimSuffix(filepath.ToSlash(pattern), "/") + "/"
+	for _, e := range idx.Entries {
+		if _, ok := matched[e]; !ok && strings.HasPrefix(e.Name, dir) {
+			entries = append(entries, e)
 		}
+	}
 
-		if _, err := w.doRemoveFile(idx, file); err != nil {
-			return err
-		}
-
-		dir, _ := filepath.Split(file)
-		if dir != "" {
-			if err := w.removeEmptyDirectory(dir); err != nil {
-				return err
-			}
-		}
+	if err := w.removeEntries(idx, entries); err != nil {
+		return err
 	}
 
 	return w.setIndex(idx)
